@@ -3,6 +3,6 @@ CONSTANTS
   Deviations = {}
   Seed = 1
   EncSpaces = {"enc", "triple"}
-  Spaces = {"base", "place1", "pair", "enc"}
+  Spaces = {"base", "place1", "pair", "enc", "form"}
 INVARIANTS WellFormed DeclaredRoundTrip DefaultMapping ExactlyOneResponse ContentNegotiated EveryDeclaredReturned CallsInOrder PairQInPair PathsAsPlaced
 CHECK_DEADLOCK FALSE
